@@ -311,5 +311,28 @@ theorem zipWith_smul_pos : ∀ (mass : List ℝ) (x : List (Tf ℝ)) (lks : List
     rw [zipWith_smul_pos mass x lks]
     rfl
 
+/-- a free link is a root with six dof rows (the shape `cd_eq` / `cdofd_eq_sys` need), from `LinkOK` -/
+theorem cdOK_of_linkOK (ps : List Int) (lks : List (LinkP ℝ)) (ins : List (LinkIn ℝ))
+    (kin : List (Tf ℝ × List (MjD.JointW ℝ))) (coms : List (V3 ℝ)) (n : Nat)
+    (hlks : lks.length = n) (hins : ins.length = n)
+    (hok : ∀ y ∈ ps.zip (lks.zip ins), KinPos.LinkOK y.1 y.2.1 y.2.2) :
+    ∀ y ∈ ps.zip (ins.zip (List.zipWith (fun (lk : LinkIn ℝ × (Tf ℝ × List (MjD.JointW ℝ))) (c : V3 ℝ) =>
+        MjD.cdofBody lk.1 lk.2.1 lk.2.2 c) (ins.zip kin) coms)), CdOK y.1 y.2.1 y.2.2 := by
+  intro y hy hf
+  rw [List.mem_iff_getElem] at hy
+  obtain ⟨i, hi, rfl⟩ := hy
+  simp only [List.getElem_zip, List.getElem_zipWith] at hf ⊢
+  have hi' : i < ps.length ∧ i < ins.length := by
+    simp only [List.length_zip, List.length_zipWith] at hi; omega
+  have hmem : (ps[i], lks[i]'(by omega), ins[i]) ∈ ps.zip (lks.zip ins) := by
+    rw [List.mem_iff_getElem]
+    exact ⟨i, by simp; omega, by simp⟩
+  have hlk := hok _ hmem
+  obtain ⟨hp, _, _, hqd, _⟩ := hlk.free hf
+  refine ⟨hp, ?_, hqd⟩
+  unfold MjD.cdofBody
+  rw [hf]
+  simp
+
 end com
 end Brax.Gd
